@@ -32,7 +32,6 @@ func C10_RoundTrip() {
 	maxH := 2
 	if vTier() == "thorough" {
 		maxH = 3
-		cfg.lenVars = 2
 	}
 	h := vShapeState(cfg, maxH, 1, []int{1})
 	// optional second version: a write, or a commit without writes (root inherited)
